@@ -117,8 +117,9 @@ def run(geofile, raw, outpath):
     has = nb = False
     nd = 0.0
     du = None
-    probes = []   # (record index of Safety, s, pos, [(dir, d)...])
-    cur_probe = None
+    probes = []   # (record index of Safety / SafetyMax, s, pos, [(dir, d)...])
+    cur_probes = []   # the probes taken at the current position (rays shot later from it count for all)
+    last_s = None     # unlimited safety reported at the current position (radius of legal MoveTo targets)
     nrm = None    # true unit normal (global) of the surface the track sits on, from the oracle
     s_arr = 0.0   # arrival direction . normal
     s_ref = 0.0   # (direction at crossing) . normal
@@ -141,7 +142,8 @@ def run(geofile, raw, outpath):
             has = nb = False
             nd = 0.0
             du = None
-            cur_probe = None
+            cur_probes = []
+            last_s = None
             P["start"] = an.q(pos)
         elif e in ("Find", "FindMax"):
             d = r["d"]
@@ -171,8 +173,9 @@ def run(geofile, raw, outpath):
             has = d is not None and d != 0
             nd = d if d is not None else 0.0
             nb = bool(r["b"]) and d is not None
-            if cur_probe is not None and e == "Find" and d is not None:
-                cur_probe[3].append((dirv.copy(), d))
+            if e == "Find" and d is not None:
+                for cp in cur_probes:
+                    cp[3].append((dirv.copy(), d))
         elif e == "MoveI":
             x = r["x"]
             P["x_ok"] = bool(has and 0 < x <= nd and (x < nd or not nb))
@@ -185,7 +188,8 @@ def run(geofile, raw, outpath):
             has = nd != 0
             nb = nb and has
             du = None
-            cur_probe = None
+            cur_probes = []
+            last_s = None
         elif e == "MoveB":
             P["legal"] = bool(has and nb)
             pos = pos + nd * dirv
@@ -194,7 +198,8 @@ def run(geofile, raw, outpath):
             has = nb = False
             nd = 0.0
             du = None
-            cur_probe = None
+            cur_probes = []
+            last_s = None
             na = an.geo.normal_at(pos, pos - eps_at(pos) * ref)
             nrm = na["n"] if na["valid"] else None
             # a second, non-parallel surface within 10 eps of the point: edge / corner of the geometry,
@@ -223,11 +228,35 @@ def run(geofile, raw, outpath):
                     want_exiting = (s_new * base > 0)
                     P["dec"] = bool((r["bres"] == "exiting") == want_exiting)
                     P["dkind"] = ("x" if want_exiting else "r", abs(s_new) < 0.05)
-        elif e == "Safety":
+        elif e == "MoveTo":
+            tgt = np.array(r["p"], dtype=float)
+            P["within"] = bool(ph == "I" and last_s is not None
+                               and float(np.linalg.norm(tgt - pos)) <= last_s * (1 + 1e-12))
+            pos = tgt
+            ph = "I"
+            ref = None
+            nrm = None
+            has = nb = False
+            nd = 0.0
+            du = None
+            cur_probes = []
+            last_s = None
+        elif e == "Copy":
+            dirv = np.array(r["dir"], dtype=float)
+            has = nb = False
+            nd = 0.0
+            du = None
+        elif e in ("Safety", "SafetyMax"):
             s = r["s"]
             P["s"] = s
             cur_probe = [idx, s, pos.copy(), []]
             probes.append(cur_probe)
+            cur_probes.append(cur_probe)
+            if e == "Safety":
+                last_s = s if (s is not None and s > 0) else None
+            # F-SAFE-1 scope: a sphere / cylinder FACE of the point's volume (any level of its chain) whose
+            # gradient vanishes at the local point (centre of the sphere, axis of the cylinder)
+            P["centre"] = bool(an.geo.zero_gradient_face(pos))
             if s is not None and s > 0:
                 us = []
                 for i in (-1, 0, 1):
@@ -253,7 +282,9 @@ def run(geofile, raw, outpath):
                 # explicit upper bounds of the true distance to the boundary of the point's volume: the
                 # surface point found at distance dk along uk bounds the volume there iff the volume path
                 # changes just beyond it
-                P["near"] = [(dk, an.q(pos + (dk + 2 * eps_at(pos)) * uk)) for (dk, uk, _lev, _st) in near]
+                # (the CONFIRMED bound is the distance of the located point, dk + 2 eps: the surface point itself
+                # need not bound the volume -- a surface of another level may lie just in front of the real boundary)
+                P["near"] = [(dk + 2 * eps_at(pos), an.q(pos + (dk + 2 * eps_at(pos)) * uk)) for (dk, uk, _lev, _st) in near]
         # logical point after the operation
         if ph == "I":
             P["logical"] = an.q(pos)
@@ -356,8 +387,12 @@ def run(geofile, raw, outpath):
                 if e == "MoveB":
                     o["legal"] = P["legal"]
                     o["edge"] = P.get("edge", False)
-                if e == "Safety":
+                if e == "MoveTo":
+                    o["within"] = P["within"]
+                if e in ("Safety", "SafetyMax"):
                     s = P["s"]
+                    o["sfin"] = bool(s is not None)
+                    o["centre"] = P["centre"]
                     o["sneg"] = bool(s is not None and s < 0)
                     pr = probe_by_idx.get(idx)
                     rays = pr[3] if pr else []
@@ -431,8 +466,18 @@ def plan(geofile, seed, n, outpath):
                 v /= np.linalg.norm(v)
                 dirs.append([float(x) for x in v])
         out.append({"p": [float(x) for x in p], "dirs": dirs})
+    # steering at the delicate case of detail::CalcSafetyDistance: points exactly at the centre of a sphere /
+    # on the axis of a cylinder (the outward normal is undefined there)
+    ncentre = 0
+    for c in geo.centre_points(rng, nmax=6):
+        rc = geo.locate(np.asarray(c, float)[None, :])[0]
+        if not rc["valid"] or rc["outside"]:
+            continue
+        dirs = [[float(x) for x in u2] for (_d2, u2, _l, _s) in geo.nearest_dirs(c)[:4]]
+        out.append({"p": [float(x) for x in c], "dirs": dirs, "centre": True})
+        ncentre += 1
     json.dump(out, open(outpath, "w"))
-    return {"points": len(out)}
+    return {"points": len(out), "centre_points": ncentre}
 
 
 if __name__ == "__main__":
